@@ -10,6 +10,8 @@ Parts
   layouts   : marker sequences over {Onset, Offset, Inset} x {Aa, aa} x EVERY layout (each boundary between consecutive
               markers is: same row / next row with equal onset / next row one second later) x (no Delay | one marker
               carrying a Delay of 0, 0.5, 1, 2 or 10 s).
+  ties      : 2-3 equal-onset rows (one marker each) in a file that really has to be re-sorted (an unrelated
+              Delay-shifted marker lands before them), followed by 0-3 later rows.
   long      : seeded random files of 24-60 rows (above numpy's small-array sort threshold) with many equal onsets,
               several non-colliding Delay shifts, plain tags and n/a rows; definitions come from a sidecar.
 """
@@ -112,58 +114,73 @@ def build_time_points(rows):
     return candidates, rows_of
 
 
-def outcomes_if_equal_onset_rows_are_permuted(rows, limit=4000):
-    """multisets of reports reachable when the rows (and delayed groups) of each time point may take effect in ANY order
-    (markers of one row keep their order).  Used only to give an order-dependence its own narrow label."""
-    plain = {}
-    delayed = {}
+def _distinct_perms(items):
+    """distinct permutations of a list of hashable items"""
+    from collections import Counter
+    cnt = Counter(items)
+
+    def rec(prefix, left):
+        if left == 0:
+            yield list(prefix)
+            return
+        for it in list(cnt):
+            if cnt[it]:
+                cnt[it] -= 1
+                prefix.append(it)
+                yield from rec(prefix, left - 1)
+                prefix.pop()
+                cnt[it] += 1
+    yield from rec([], len(items))
+
+
+def reachable_if_equal_onset_rows_are_permuted(rows, observed_multiset):
+    """would the observed reports be correct bookkeeping if the rows (and delayed groups) of each time point took effect
+    in SOME order other than the file order (markers of one row keep their order)?  Names do not interact, so this is
+    decided name by name (slight over-approximation: the per-name orders are not forced to come from one permutation).
+    Used only to give an order-dependence its own narrow label."""
+    per_key = {}         # key -> time -> list of blocks (tuple of kinds)
     for r, (t, markers) in enumerate(rows):
-        blk = [(k, n) for (k, n, d) in markers if d is None]
-        if blk:
-            plain.setdefault(t, []).append(blk)
+        blk = {}
         for (k, n, d) in markers:
-            if d is not None:
-                delayed.setdefault(t + d, []).append([(k, n)])
-    states = {(frozenset(), ())}
-    for t in sorted(set(plain) | set(delayed)):
-        blocks = plain.get(t, []) + delayed.get(t, [])
-        keysets = [{n.casefold() for _, n in b} for b in blocks]
-        # only blocks sharing a name with another block interact; the others may stay where they are
-        coll = [i for i, ks in enumerate(keysets) if any(ks & other for j, other in enumerate(keysets) if j != i)]
-        if not coll:
-            orders = [blocks]
-        elif len(coll) > 7:
-            return None
-        else:
-            rest = [b for i, b in enumerate(blocks) if i not in coll]
-            orders = [[blocks[i] for i in perm] + rest for perm in itertools.permutations(coll)]
-        new_states = set()
-        for opened, reps in states:
-            for order in orders:
-                seq = [m for b in order for m in b]
-                o2 = set(opened)
-                used = set()
-                r2 = list(reps)
-                for kind, name in seq:
-                    key = name.casefold()
-                    if key in used:
-                        r2.append(("dup:" + kind, key))
-                        continue
-                    used.add(key)
-                    if kind == "Onset":
-                        o2.add(key)
-                    elif kind == "Offset":
-                        if key in o2:
-                            o2.discard(key)
-                        else:
-                            r2.append(("offset", key))
-                    elif key not in o2:
-                        r2.append(("inset", key))
-                new_states.add((frozenset(o2), tuple(sorted(r2))))
-        states = new_states
-        if len(states) > limit:
-            return None
-    return {reps for _, reps in states}
+            if d is None:
+                blk.setdefault(n.casefold(), []).append(k)
+            else:
+                per_key.setdefault(n.casefold(), {}).setdefault(t + d, []).append((k,))
+        for key, kinds in blk.items():
+            per_key.setdefault(key, {}).setdefault(t, []).append(tuple(kinds))
+    obs_by_key = {}
+    for what, key in observed_multiset:
+        obs_by_key.setdefault(key, []).append(what)
+    if any(k not in per_key for k in obs_by_key):
+        return False
+    for key, by_time in per_key.items():
+        states = {(False, ())}
+        for t in sorted(by_time):
+            blocks = by_time[t]
+            if len(blocks) > 9:
+                return False
+            new_states = set()
+            for order in _distinct_perms(blocks):
+                seq = [k for b in order for k in b]
+                for opened, reps in states:
+                    o2, r2 = opened, list(reps)
+                    for i, kind in enumerate(seq):
+                        if i > 0:
+                            r2.append("dup:" + kind)
+                        elif kind == "Onset":
+                            o2 = True
+                        elif kind == "Offset":
+                            if o2:
+                                o2 = False
+                            else:
+                                r2.append("offset")
+                        elif not o2:
+                            r2.append("inset")
+                    new_states.add((o2, tuple(sorted(r2))))
+            states = new_states
+        if tuple(sorted(obs_by_key.get(key, []))) not in {reps for _, reps in states}:
+            return False
+    return True
 
 
 # ----------------------------------------------------------------------------------------------------------------
@@ -284,8 +301,7 @@ def check_case(rows, extras=None, use_sidecar=False):
     if obs_multi not in exp_multis:
         # say which requirement broke
         exp = exp_multis[0]
-        reach = outcomes_if_equal_onset_rows_are_permuted(rows)
-        if reach is not None and tuple(obs_multi) in reach:
+        if reachable_if_equal_onset_rows_are_permuted(rows, obs_multi):
             # correct bookkeeping for SOME order of the rows that share an onset, but not for the file order
             fails.append(("C10.equal_onset.rows_take_effect_in_file_order", obs_multi, exp))
             return fails, ambiguous
@@ -335,13 +351,13 @@ def rows_from(markers, layout, delay):
 
 
 def gen_cases(quick):
-    """yield (part, markers, layout, delay)"""
+    """yield (part, rows)"""
     # histories: canonical layout
     full_len = 3 if quick else 4
     for m in seqs(NAMES_FULL, full_len):
-        yield ("histories", m, (2,) * (len(m) - 1), None)
+        yield ("histories", rows_from(m, (2,) * (len(m) - 1), None))
     for m in seqs(NAMES_SMALL, full_len + 1, minlen=full_len + 1):
-        yield ("histories", m, (2,) * (len(m) - 1), None)
+        yield ("histories", rows_from(m, (2,) * (len(m) - 1), None))
     # layouts
     lay_len = 3 if quick else 4
     for m in seqs(NAMES_SMALL, lay_len):
@@ -354,7 +370,15 @@ def gen_cases(quick):
             for dl in delays:
                 if layout == (2,) * (n - 1) and dl is None and n <= full_len:
                     continue    # already in histories
-                yield ("layouts", m, layout, dl)
+                yield ("layouts", rows_from(m, layout, dl))
+    # ties: a group of equal-onset rows (one marker each) in a file that also holds an unrelated Delay-shifted marker
+    # landing before them and 0-3 later rows, i.e. a file whose time points really have to be re-sorted
+    for size in (2, 3):
+        for m in seqs(NAMES_SMALL, size, minlen=size):
+            for nfill in range(0, 4):
+                rows = [(0.0, [("Onset", "Bb", 0.5)])] + [(1.0, [(k, n, None)]) for k, n in m]
+                rows += [(2.0 + i, []) for i in range(nfill)]
+                yield ("ties", rows)
 
 
 def gen_long(rng, count):
@@ -385,8 +409,7 @@ def _worker(chunk):
     schema()
     out = []
     amb = 0
-    for part, m, layout, dl in chunk:
-        rows = rows_from(m, layout, dl)
+    for part, rows in chunk:
         fails, ambiguous = check_case(rows)
         amb += ambiguous
         for clause, obs, exp in fails:
@@ -420,8 +443,8 @@ def run(w: Workload):
     counts = {}
     for c in cases:
         counts[c[0]] = counts.get(c[0], 0) + 1
-        w.case(c, nontrivial=True,
-               sample={"part": c[0], "rows": _rows_json(rows_from(c[1], c[2], c[3]))})
+        w.case((c[0], json.dumps(_rows_json(c[1]))), nontrivial=True,
+               sample={"part": c[0], "rows": _rows_json(c[1])})
     chunks = [cases[i:i + 200] for i in range(0, len(cases), 200)]
     records = []
     amb = 0
@@ -444,6 +467,9 @@ def run(w: Workload):
                  "choices (5 shifts below the longest length, 2 shifts {0.5,1} and first marker 'Aa' at the longest)"
                  % (3 if w.quick else 4), exhaustive=True,
            order_ambiguous_cases=amb)
+    w.part("ties", cases=counts.get("ties", 0),
+           bound="one unrelated marker delayed by 0.5 s, then 2-3 equal-onset rows with one marker each over "
+                 "{Onset,Offset,Inset} x {Aa,aa}, then 0-3 later rows", exhaustive=True)
     w.part("long", cases=len(long_cases), bound="seeded random files, 24-60 rows, definitions from a sidecar",
            exhaustive=False)
     w.exhaustive = True
